@@ -205,7 +205,19 @@ func (u *Unit) sliceWF(v Val) string {
 }
 
 func (u *Unit) mapWF(v Val) string {
-	return sAnd(app(">=", app("mcard_"+v.So, v.T), "0"))
+	card := app("mcard_"+v.So, v.T)
+	dom := app("mdom_"+v.So, v.T)
+	ks, _ := arraySortsOfMap(v.So, u)
+	empty := fmt.Sprintf("((as const (Array %s Bool)) false)", ks)
+	return sAnd(app(">=", card, "0"), sEq(sEq(card, "0"), sEq(dom, empty)), sImp(app("mnil_"+v.So, v.T), sEq(card, "0")))
+}
+
+// arraySortsOfMap returns the key and value sorts of a map sort (recorded at declaration).
+func arraySortsOfMap(mapSort string, u *Unit) (string, string) {
+	if kv, ok := u.sc.mapKV[mapSort]; ok {
+		return kv[0], kv[1]
+	}
+	return "Int", "Int"
 }
 
 // typeInv returns the type invariant of a value (well-formedness facts assumed for inputs).
